@@ -28,7 +28,8 @@ REQUIRED_OBS = ["sends_between_segments", "segmentations_ok", "cuts_inside_heade
                 "slow_subscriber_runs", "second_client_receiving_in_the_gaps",
                 "subscribed_while_a_frame_was_incomplete",
                 "log_level_changed_between_segments",
-                "subscribed_from_the_connected_notification"]
+                "subscribed_from_the_connected_notification",
+                "subscriber_edits_the_messages_in_place"]
 SOAK = True   # also judged by the whole-run monitors of the soak sessions (vf/soak.py)
 BUDGET = {"quick": 100, "thorough": 1500}
 
@@ -79,7 +80,7 @@ _BASE = {}
 
 
 def deliver(gen, stream, cuts, gap, debug=False, delays=None, send_in_gap=False, duo=False,
-            late_sub=False, flip_log=False, sub_on_connect=False):
+            late_sub=False, flip_log=False, sub_on_connect=False, mutate=False):
     """Deliver `stream` cut at `cuts`; returns (deliveries, closed, errors, status).
     send_in_gap: the application submits a command after every segment (sending and receiving
     go on at the same time on one connection).
@@ -89,6 +90,7 @@ def deliver(gen, stream, cuts, gap, debug=False, delays=None, send_in_gap=False,
     the application subscribes in the gap behind it (gap must be "quiesce").
     flip_log: the application changes the library's log level (WARNING <-> DEBUG) between the
     segments, as a "set log level" service does at run time.
+    mutate: the subscriber changes every message object it is handed, in place.
     sub_on_connect: the message subscriber is registered by a connection subscriber, from inside
     the connected=True notification, a loop turn after the console's first segment arrived."""
     import pyairtouch.comms.socket as psock
@@ -102,6 +104,7 @@ def deliver(gen, stream, cuts, gap, debug=False, delays=None, send_in_gap=False,
 
     async def main(loop, net, log):
         w = SockWorld(gen, loop, net, log)
+        w.mutate_msgs = mutate
         if delays:
             w.msg_delays = list(delays)
         first_seg_done = []
@@ -163,7 +166,7 @@ def deliver(gen, stream, cuts, gap, debug=False, delays=None, send_in_gap=False,
             await asyncio.sleep(sum(delays) + 1.0)
         await quiesce(loop)
         closed = (not c.open) or len(net.conns) != (2 if duo else 1)
-        out = [describe(h, m) for _, h, m in w.msgs]
+        out = list(w.descs) if mutate else [describe(h, m) for _, h, m in w.msgs]
         if duo:
             got2 = [describe(h, m) for _, h, m in w2.msgs]
             want2 = [base2[r] for r in fed2]
@@ -232,6 +235,11 @@ def cases(tier, seed):
                     for ch in _chunks([[i] for i in range(1, n)], 100):
                         yield {"k": "cuts", "gen": gen, "stream": sname, "gap": gap, "cuts": ch,
                                "duo": True}
+            # a subscriber that edits every message object it is handed (byte-identical frames
+            # follow each other in the "repeat" stream)
+            for gap in ("same_turn", "quiesce"):
+                yield {"k": "cuts", "gen": gen, "stream": sname, "gap": gap,
+                       "cuts": [[], [n // 2], [n // 3, 2 * n // 3]], "mutate": True}
             if full:
                 # the message subscriber is registered from inside the connected notification,
                 # after the console's first segment has arrived
@@ -317,7 +325,11 @@ def run_case(case):
                                             case.get("duo", False),
                                             case.get("late_sub", False),
                                             case.get("flip_log", False),
-                                            case.get("sub_on_connect", False))
+                                            case.get("sub_on_connect", False),
+                                            case.get("mutate", False))
+        if case.get("mutate"):
+            obs["subscriber_edits_the_messages_in_place"] = obs.get(
+                "subscriber_edits_the_messages_in_place", 0) + 1
         if case.get("sub_on_connect"):
             obs["subscribed_from_the_connected_notification"] = obs.get(
                 "subscribed_from_the_connected_notification", 0) + 1
